@@ -67,6 +67,8 @@ func (c08) Thresholds(tier string) map[string]int64 {
 		"dim:mixed-whitespace-on-blank-lines":           800,
 		"layout:filler:mixed-tab-blank-whitespace":      2000,
 		"dim:padded-reader":                             500,
+		"dim:partial-dedent":                            300,
+		"layout:partial-dedent-closing-lines":           500,
 		"padded-reader:>=68KiB":                         150,
 		"padded-reader:>=1074KiB":                       80,
 		"decorated-elements-compared":                   8000,
@@ -75,7 +77,7 @@ func (c08) Thresholds(tier string) map[string]int64 {
 }
 
 func (c08) Rule() string {
-	return "case = one generated program rendered in the canonical layout L0 and in 4 (quick) / 10 (thorough) PRNG layouts: indent unit 1-8 blanks or 1-2 tabs, or per line either tabs or 8 blanks per level (a tab is 8 columns), if bodies indented or flat, LF/CRLF/CR, minimal/full/redundant parentheses, operator spellings per occurrence, extra blanks inside << >> and { }, blank / white-space-only / comment lines (at column 0, at the body's depth, deeper and shallower; their white space may mix tabs and blanks, since they carry no statement) at every insertion point (between statements, between an option line and its body, between options, before elseif/else/endif, between headers, first/last in a node, between nodes), trailing comments, a different node-to-reader split, and (first variant of a case, LF layouts) 5 KiB - 1.1 MiB of blank and comment lines inserted at one line boundary, so that a reader exceeds every plausible buffer. A second sub-workload compares scripts of 6 lines/options whose texts begin or end with a speaker colon or carry markup, with and without trailing decorations (blanks, tabs, // comments, #hashtags): text and markup attributes (the implicit character attribute included) must be identical and the tags exactly those written. Oracle: tree.FromReaders of every rendering is reflect.DeepEqual to L0's, and along shared PRNG choice paths every rendering produces the model's trace. Non-trivial: the variant differs from L0 in >=2 dimensions and the program nests >=2 deep. Distinct by hash of the variant's text."
+	return "case = one generated program rendered in the canonical layout L0 and in 4 (quick) / 10 (thorough) PRNG layouts: indent unit 1-8 blanks or 1-2 tabs, or per line either tabs or 8 blanks per level (a tab is 8 columns), if bodies indented or flat, LF/CRLF/CR, minimal/full/redundant parentheses, operator spellings per occurrence, extra blanks inside << >> and { }, blank / white-space-only / comment lines (at column 0, at the body's depth, deeper and shallower; their white space may mix tabs and blanks, since they carry no statement) at every insertion point (between statements, between an option line and its body, between options, before elseif/else/endif, between headers, first/last in a node, between nodes), trailing comments, <<elseif>> / <<else>> / <<endif>> dedented only part of the way after a non-empty indented body, a different node-to-reader split (one program in four has a node called Start that is not its first node), and (first variant of a case, LF layouts) 5 KiB - 1.1 MiB of blank and comment lines inserted at one line boundary, so that a reader exceeds every plausible buffer. A second sub-workload compares scripts of 6 lines/options whose texts begin or end with a speaker colon or carry markup, with and without trailing decorations (blanks, tabs, // comments, #hashtags): text and markup attributes (the implicit character attribute included) must be identical and the tags exactly those written. Oracle: tree.FromReaders of every rendering is reflect.DeepEqual to L0's, and along shared PRNG choice paths every rendering produces the model's trace. Non-trivial: the variant differs from L0 in >=2 dimensions and the program nests >=2 deep. Distinct by hash of the variant's text."
 }
 
 func (c08) Assumptions() []string {
@@ -234,6 +236,7 @@ func (p c08) Run(c *core.Ctx) {
 	}
 	r := c.R
 	cfg := gen.DefaultFlow()
+	cfg.StartNotFirst = true // (the first node of the first reader starts the dialogue, however the nodes are split)
 	cfg.MaxDepth = 6
 	if c.Idx%2 == 0 {
 		cfg.WOptions, cfg.WIf = 26, 22
